@@ -163,7 +163,8 @@ func (c *connection) Skip(n int) (err error) {
 func (c *connection) Release() (err error) {
 	// Check inputBuffer length first to reduce contention in mux situation.
 	// c.operator.do competes with c.inputs/c.inputAck
-	if c.inputBuffer.Len() == 0 && c.operator.do() {
+	// A closed connection no longer owns its operator: the slot may already serve another connection.
+	if c.inputBuffer.Len() == 0 && c.IsActive() && c.operator.do() {
 		maxSize := c.inputBuffer.calcMaxSize()
 		// Set the maximum value of maxsize equal to mallocMax to prevent GC pressure.
 		if maxSize > mallocMax {
